@@ -126,9 +126,20 @@ func (propC14) Gen(seed uint64, ex map[string]bool) interface{} {
 var c14ViaFS bool   // set per run from the scenario (single task, no concurrency)
 var c14ViaComp bool // likewise
 
-func c14Render(p *Program, knobs map[string]int, mainSrc string) (Obs, *simrt.World) {
-	w := simrt.Begin(simrt.Config{Seed: 14, PoolPolicy: simrt.PoolLIFO, MapOrder: simrt.OrderSorted, ClockStart: 1_700_000_000e9, ClockStep: 1e6, Knobs: knobs})
+func c14Render(p *Program, knobs map[string]int, mainSrc string) (res Obs, wr *simrt.World) {
+	w := simrt.Begin(simrt.Config{Seed: 14, PoolPolicy: simrt.PoolLIFO, MapOrder: simrt.OrderSorted, ClockStart: 1_700_000_000e9, ClockStep: 1e6, Knobs: knobs, PreemptDen: 4})
 	defer simrt.End()
+	w.EnterMain()
+	defer func() {
+		r := recover()
+		if r != nil && !simrtAbort(r) {
+			w.LeaveMain()
+			panic(r)
+		}
+		if ab := w.LeaveMain(); ab != "" {
+			res, wr = Obs{Class: "aborted", Err: ab}, w // a scheduler round among goroutines the library started did not end
+		}
+	}()
 	if c14ViaFS {
 		w.UseSimFS()
 		twig.SetDebugWriter(io.Discard)
@@ -195,9 +206,20 @@ type plainWriter struct{ b []byte }
 
 func (p *plainWriter) Write(x []byte) (int, error) { p.b = append(p.b, x...); return len(x), nil }
 
-func c14RenderTo(p *Program, flavour string) (Obs, *simrt.World) {
-	w := simrt.Begin(simrt.Config{Seed: 14, PoolPolicy: simrt.PoolLIFO, MapOrder: simrt.OrderSorted, ClockStart: 1_700_000_000e9, ClockStep: 1e6})
+func c14RenderTo(p *Program, flavour string) (res Obs, wr *simrt.World) {
+	w := simrt.Begin(simrt.Config{Seed: 14, PoolPolicy: simrt.PoolLIFO, MapOrder: simrt.OrderSorted, ClockStart: 1_700_000_000e9, ClockStep: 1e6, PreemptDen: 4})
 	defer simrt.End()
+	w.EnterMain()
+	defer func() {
+		r := recover()
+		if r != nil && !simrtAbort(r) {
+			w.LeaveMain()
+			panic(r)
+		}
+		if ab := w.LeaveMain(); ab != "" {
+			res, wr = Obs{Class: "aborted", Err: ab}, w // a scheduler round among goroutines the library started did not end
+		}
+	}()
 	twig.SetDebugWriter(io.Discard)
 	saved := twig.VerifSwapGlobals(nil)
 	defer twig.VerifSwapGlobals(saved)
